@@ -411,8 +411,8 @@ package tbtc
 //@   property C46 C27
 //@   opt noframe 1
 //@   loop 1 invariant len(containers) == len(signatures)
-//@   assert call:withCancelOnBlock : [signing-context-ends-at-timeout] arg1 == signingTimeoutBlock
-//@   assert call:walletSigningExecutor.signBatch : [batch-starts-at-signing-start] arg2 == signingStartBlock
+//@   assert call:withCancelOnBlock : [signing-context-ends-exactly-at-the-timeout-block-the-action-passed] arg1 == old(signingTimeoutBlock)
+//@   assert call:walletSigningExecutor.signBatch : [batch-starts-at-the-start-block-the-action-passed] arg2 == old(signingStartBlock)
 
 //@ func signingExecutor.wallet
 //@   property C46
@@ -917,8 +917,7 @@ package tbtc
 //@   ensures result != nil && ghost.txIn == 0 && ghost.txOut == 0 && ghost.txIns == 0 && ghost.txOuts == 0
 // (AddPublicKeyHashInput / AddScriptHashInput: contracts checked against their bodies in pkg/bitcoin.)
 // (AddOutput: contract checked against its body in pkg/bitcoin.)
-//@ assume func github.com/keep-network/keep-core/pkg/bitcoin.TransactionBuilder.TotalInputsValue
-//@   ensures result == ghost.txIn
+// (TotalInputsValue: contract in pkg/bitcoin - exact for up to two inputs, the general sum is a trusted clause.)
 //@ assume func github.com/keep-network/keep-core/pkg/bitcoin.PayToWitnessPublicKeyHash
 //@   ensures err == nil ==> result0 == @p2wpkhOf(arg0)
 
@@ -1065,6 +1064,10 @@ package tbtc
 //@   opt noframe 1
 //@   opt safe index slice div nil typeassert
 //@ func validateMemberIndex
+//@   property C19
+//@   opt noframe 1
+//@   opt safe index slice div nil typeassert
+//@ func ParseWalletActionType
 //@   property C19
 //@   opt noframe 1
 //@   opt safe index slice div nil typeassert
